@@ -451,7 +451,7 @@ def supported_charsets(h: Harness):
     return XTCE_CHARSETS
 
 
-def twins_src(charsets, date="2024-01-01T00:00:00") -> str:
+def twins_src(charsets=XTCE_CHARSETS, date="2024-01-01T00:00:00") -> str:
     """A definition with values that are equal but distinguishable (an enumeration keyed 0.0/1.0 on a float encoding written
     before one keyed 0/1 on an integer encoding, with the same labels) and one string parameter per supported character set."""
     params = []
@@ -461,6 +461,13 @@ def twins_src(charsets, date="2024-01-01T00:00:00") -> str:
         "EF": f'parameter_types.EnumeratedParameterType("EF_T", {E}.FloatDataEncoding(32), {{0.0: "OFF", 1.0: "ON"}})',
         "EI": f'parameter_types.EnumeratedParameterType("EI_T", {_int(8)}, {{0: "OFF", 1: "ON"}})',
         "EB": f'parameter_types.EnumeratedParameterType("EB_T", {_int(16)}, {{1: "ON", 0: "OFF"}})',
+        # string-encoded enumerations: keys are the encoded label texts, as the loader builds them
+        "ES8": (f'parameter_types.EnumeratedParameterType("ES8_T", {E}.StringDataEncoding(fixed_raw_length=16, encoding="UTF-8"), '
+                f'{{b"ON": "SWITCHED_ON", b"NO": "SWITCHED_OFF"}})'),
+        "ES16": (f'parameter_types.EnumeratedParameterType("ES16_T", {E}.StringDataEncoding(fixed_raw_length=48, encoding="UTF-16", '
+                 f'byte_order="mostSignificantByteFirst"), {{{bytes("ON", "UTF-16")!r}: "SWITCHED_ON", {bytes("NO", "UTF-16")!r}: "SWITCHED_OFF"}})'),
+        "ES16BE": (f'parameter_types.EnumeratedParameterType("ES16BE_T", {E}.StringDataEncoding(fixed_raw_length=32, encoding="UTF-16BE"), '
+                   f'{{{bytes("ON", "UTF-16BE")!r}: "SWITCHED_ON"}})'),
     }
     for i, cs in enumerate(charsets):
         bo = ', byte_order="mostSignificantByteFirst"' if cs.upper() in ("UTF-16", "UTF-32") else ""
